@@ -213,3 +213,38 @@ def replay_cell(args, model):
 for _s in SOLVERS:
     for _sh in range(3):
         add_task('C13', f'matrix:{_s}', matrix_task, strength='B', solver=_s, shard=(_sh, 3))
+
+
+def sparse_dispatch_task(T):
+    """storage dispatch is decided by ONE predicate: every test `is X sparse?` in skglm's solvers, estimators and validation layer is
+    `scipy.sparse.issparse` (true for csc_matrix and for the newer csc_array alike).  A second predicate (isspmatrix, isinstance(X,
+    spmatrix), ...) makes the validation layer and the kernel dispatch disagree for one of the containers: the composition is accepted
+    by custom_checks and then handed to the wrong (dense) compiled kernel.  AST obligation per module."""
+    import ast as _ast
+    from pv.frame import Package, dotted
+    P = Package(REPO)
+    bad_names = {'isspmatrix', 'isspmatrix_csc', 'isspmatrix_csr', 'isspmatrix_coo', 'isspmatrix_bsr', 'isspmatrix_lil', 'isspmatrix_dok',
+                 'isspmatrix_dia', 'spmatrix', 'csc_matrix', 'csr_matrix'}
+    n_mod = n_tests = 0
+    for m, tree in sorted(P.modules.items()):
+        if not (m.startswith('skglm.solvers') or m.startswith('skglm.estimators') or m.startswith('skglm.utils.validation')
+                or m.startswith('skglm.experimental')):
+            continue
+        n_mod += 1
+        bad = []
+        for n in _ast.walk(tree):
+            if isinstance(n, _ast.Call):
+                dn = (dotted(n.func) or '').split('.')[-1]
+                if dn == 'issparse':
+                    n_tests += 1
+                elif dn in bad_names and dn.startswith('isspmatrix'):
+                    bad.append(f'{dn}(...) at line {n.lineno}')
+                elif dn == 'isinstance' and len(n.args) == 2 and any(isinstance(x, (_ast.Name, _ast.Attribute)) and
+                                                                     (dotted(x) or '').split('.')[-1] in bad_names
+                                                                     for x in _ast.walk(n.args[1])):
+                    bad.append(f'isinstance(..., {_ast.unparse(n.args[1])}) at line {n.lineno}')
+        (T.failed if bad else T.ok)(f'sparse-dispatch/{m}/one-predicate(issparse)', note='; '.join(bad) if bad else '')
+    (T.ok if n_mod >= 8 and n_tests >= 10 else T.failed)('sparse-dispatch/modules-scanned', note=f'{n_mod} modules, {n_tests} issparse tests')
+
+
+add_task(['C13', 'C10'], 'static:sparse-dispatch-predicate', sparse_dispatch_task)
